@@ -66,8 +66,17 @@ def run(ctx, R, tier):
             other = n.comparators[0] if unparse(n.left) == "pyro_app.gateway_key" else n.left
             if isinstance(other, ast.Name):
                 keyvar = other.id
+    eq_found = keyvar is not None
     if keyvar is None:
-        raise AnalysisError("process_pyro_request: comparison with pyro_app.gateway_key vanished")
+        # some other test against the configured key (membership, startswith ...): find the presented key's variable so that the remaining rules can still speak about it
+        for n in walk_no_nested(f.node):
+            if isinstance(n, ast.Compare) and len(n.ops) == 1 and "pyro_app.gateway_key" in (unparse(n.left), unparse(n.comparators[0])):
+                other = n.comparators[0] if unparse(n.left) == "pyro_app.gateway_key" else n.left
+                if isinstance(other, ast.Name):
+                    keyvar = other.id
+    R.check(eq_found, "C20-R1", "key|compared-for-equality", "the presented key is compared with the configured key by == / != (the whole key, nothing else)", f.loc(),
+            "process_pyro_request no longer tests `presented == pyro_app.gateway_key`: any other relation (membership in the configured value is a substring test when that "
+            "value is bytes/str, a prefix test, ...) lets requests through that do not present the configured key")
 
     def no_key_configured(atom, pol):
         return pol is False and unparse(atom) == "pyro_app.gateway_key"
@@ -151,6 +160,10 @@ def run(ctx, R, tier):
         if o.key == "C14-R8|NameServer.list|literal-matching":
             R.add("C20-R1", "index-page|listing-anchored-like-the-gate", "the name server applies the expose pattern to the listing with match(), as the gateway's own check does", o.ok, o.loc,
                   o.detail or "")
+        elif o.rule == "C14-R1" and "optimized_regex_list" in o.key:
+            # the sqlite back-end may answer the regex listing itself: whatever SQL it uses must not be a pattern operator with its own (unanchored / wildcard) semantics
+            R.add("C20-R1", "index-page|storage-regex-listing|" + o.key.split("|", 1)[1], "the sqlite storage's own regex listing (used for the index page when the name server runs on sqlite) "
+                  "matches no more than the anchored pattern the gateway checks", o.ok, o.loc, o.detail or "")
 
     # ---------------------------------------------------------------- R2
     def reaches_sink(fn, seen=None):
